@@ -80,6 +80,11 @@ pub struct Ctx {
     pub crate_info: Vec<Option<CrateSizeInfo>>,
     /// the simulator's field model reproduces the crate's EC codewords for this size
     pub gf_ok: Vec<bool>,
+    /// per size: the generator polynomial the crate's encoder ACTUALLY uses (derived from encode_error of a
+    /// unit vector; highest degree first, monic, degree k) and its roots in the field, sorted by discrete log.
+    /// Equal to prod_{i=1..k}(x - alpha^i) when the encoder implements the standard's code; used to aim ghost
+    /// and aligned faults at whatever cyclic code the crate implements.
+    pub enc_gen: Vec<Option<(Vec<u8>, Vec<u8>)>>,
     pub selftest_notes: Vec<String>,
 }
 
@@ -89,6 +94,7 @@ impl Ctx {
         let mut maps = Vec::new();
         let mut crate_info = Vec::new();
         let mut gf_ok = Vec::new();
+        let mut enc_gen = Vec::new();
         let mut notes = Vec::new();
         for s in SIZES.iter() {
             // what the public API reveals about this size
@@ -162,8 +168,33 @@ impl Ctx {
                 notes.push(format!("field model disagrees with encode_error for {}: algebraic fault kinds disabled there", s.name));
             }
             gf_ok.push(ok);
+            // the encoder's own generator polynomial, from a unit data vector in block 0
+            let eg = guard(|| {
+                let mut data = vec![0u8; s.n_data];
+                let last = s.blocks * (s.block_data_len(0) - 1);
+                data[last] = 1;
+                let ec = encode_error(&data, s.size);
+                if ec.len() != s.n_ec() {
+                    return None;
+                }
+                let mut g = vec![1u8];
+                for j in 0..s.k {
+                    g.push(ec[j * s.blocks]);
+                }
+                let mut roots: Vec<u8> = (1..=255u16).map(|x| x as u8).filter(|x| gf.eval(&g, *x) == 0).collect();
+                roots.sort_by_key(|x| gf.log[*x as usize]);
+                Some((g, roots))
+            })
+            .ok()
+            .flatten();
+            if let Some((_, roots)) = &eg {
+                if roots.len() != s.k {
+                    notes.push(format!("the encoder's generator polynomial for {} has {} distinct roots in the field, expected {}", s.name, roots.len(), s.k));
+                }
+            }
+            enc_gen.push(eg);
         }
-        Ctx { gf, maps, crate_info, gf_ok, selftest_notes: notes }
+        Ctx { gf, maps, crate_info, gf_ok, enc_gen, selftest_notes: notes }
     }
 }
 
